@@ -56,6 +56,7 @@ AUTO_DENSIFY is on, and raises RuntimeError otherwise; the switch is off unless 
 theorem array_guard (autoDensify : Bool) :
     Gen.arrayGuard autoDensify = (if autoDensify then .ok () else .error Err.runtime) ∧
     Gen.autoDensifyDefault = false := by
+  -- exhaustive over the switch: holds for every spelling of the test in the source (negated, arms exchanged, early return)
   cases autoDensify <;> exact ⟨rfl, rfl⟩
 
 /-- **densemix_decision.** The sparse/dense mix rule of `_Elemwise._get_fill_value` (generated from the source):
@@ -64,6 +65,7 @@ iff the dense operands already have the result's shape; otherwise ValueError. -/
 theorem densemix_decision (constFill denseHasResultShape : Bool) :
     Gen.denseMix constFill denseHasResultShape =
       (if constFill then .ok false else if denseHasResultShape then .ok true else .error Err.value) := by
+  -- exhaustive over the two facts: holds for every Boolean spelling of the two tests (conjuncts reordered, De Morgan, nesting, elif)
   cases constFill <;> cases denseHasResultShape <;> rfl
 
 /-- multiplication by a count is repeated addition, except `inf * 0` and `nan * 0` -/
@@ -105,17 +107,22 @@ theorem mulNat_eq_sumRep (fill : Ext) (n : Nat) (h : ExcludedFullLane fill n = f
         simp [sumRep] at this ⊢
         rw [← this]; rfl
 
+-- (which of `h0` / `h` the simplifier needs depends on how the source spells the test: both are always supplied)
+set_option linter.unusedSimpArgs false in
 /-- **fill_contribution.** What an add-reduction adds to a lane for its unstored elements (the expression GENERATED from
 `SparseArray.reduce`) is the sum of that many copies of the fill value — for every fill value (finite, ±inf, NaN) and every
 count, zero included: a lane without unstored elements gets nothing added, whatever the fill.  (History: the code used to add
 `fill * 0`, NaN for a non-finite fill; the statement was then proved only outside `ExcludedFullLane`.  Reverting that
 repair changes the generated expression and this theorem fails.) -/
 theorem fill_contribution (fill : Ext) (n : Nat) : Gen.fillContribution fill n = sumRep fill n := by
-  unfold Gen.fillContribution
-  split
-  · rename_i h0; subst h0; rfl
-  · rename_i h0
-    exact mulNat_eq_sumRep fill n (by simp [ExcludedFullLane, h0])
+  -- by cases on the count, NOT on the shape of the generated expression: whichever way the source spells "no unstored element"
+  -- (`missing = 0`, `¬ missing > 0`, the arms of the conditional in either order) the same two facts decide every test in it
+  rcases Nat.eq_zero_or_pos n with h | h
+  · subst h
+    simp [Gen.fillContribution, sumRep]
+  · have hm := mulNat_eq_sumRep fill n (by simp [ExcludedFullLane]; omega)
+    have h0 : n ≠ 0 := by omega
+    simp [Gen.fillContribution, h0, h, hm]
 
 /-- non-vacuity of the excluded region and of its complement -/
 example : ExcludedFullLane Ext.posInf 0 = true ∧ ExcludedFullLane Ext.nan 3 = false ∧ ExcludedFullLane (Ext.fin 2) 0 = false ∧
